@@ -1,7 +1,9 @@
 /-
 The cross-endpoint consistency invariant of the closed system for ARBITRARY histories (C02/C03 Tier 2),
 data flowing from A to B: every datagram in flight is made of genuine frames; in offsets from the
-first sequence number `snd_una(A) ≤ rcv_nxt(B) ≤ snd_nxt(A)`; A's send buffer is contiguous; a segment
+first sequence number `rcv_nxt(B) ≤ snd_nxt(A)`, and B HAS every segment below `snd_una(A)` (after the
+repair of the acked-head wedge `snd_una(A)` may be ahead of `rcv_nxt(B)`: A releases a segment that B
+holds in its reorder buffer but has not yet delivered); A's send buffer is contiguous; a segment
 flagged `acked` at A, an entry of B's ack list and an ACK frame in flight are all for segments B HAS
 (delivered to its queue, or waiting in its reorder buffer) — and what B has it never loses.
 
@@ -31,7 +33,7 @@ structure Cons (p : Par) (s : State) (gab gba : GLink) : Prop where
   acon : Contig p.base s.A
   atag : BufTagged p.conv s.A.snd_buf
   ahas : ∀ x ∈ s.A.snd_buf, x.acked = true → Has p.base s.B.rcv_nxt s.B.rcv_buf x.sn
-  aub : o p.base s.A.snd_una ≤ o p.base s.B.rcv_nxt
+  arel : ∀ sn, o p.base sn < o p.base s.A.snd_una → Has p.base s.B.rcv_nxt s.B.rcv_buf sn
   bK  : Total.InvK s.B
   bconv : s.B.conv = p.conv
   bsb : s.B.snd_buf = []
@@ -81,7 +83,7 @@ theorem cons_rcvStep {p : Par} {s : State} {gab gba : GLink} (h : Cons p s gab g
   { h with
     hab := hab'
     ahas := fun x hx ha => hs.has _ (h.ahas x hx ha)
-    aub := Nat.le_trans h.aub hs.lo
+    arel := fun sn hsn => hs.has _ (h.arel sn hsn)
     bK := hK
     bconv := hs.cv.trans h.bconv
     bsb := hs.sb
@@ -118,7 +120,10 @@ theorem cons_flushB {p : Par} {s : State} {gab gba : GLink} (h : Cons p s gab gb
       show ∀ x ∈ s.A.snd_buf, x.acked = true →
         Has p.base (s.B.flush full (clk s.now)).k.rcv_nxt (s.B.flush full (clk s.now)).k.rcv_buf x.sn
       rw [hrn, hrb]; exact h.ahas
-    aub := by show _ ≤ o p.base (s.B.flush full (clk s.now)).k.rcv_nxt; rw [hrn]; exact h.aub
+    arel := by
+      show ∀ sn, o p.base sn < o p.base s.A.snd_una →
+        Has p.base (s.B.flush full (clk s.now)).k.rcv_nxt (s.B.flush full (clk s.now)).k.rcv_buf sn
+      rw [hrn, hrb]; exact h.arel
     bK := hK
     bconv := by show (s.B.flush full (clk s.now)).k.conv = _; rw [hk]; exact h.bconv
     bsb := by show (s.B.flush full (clk s.now)).k.snd_buf = _; rw [hk]
@@ -234,7 +239,7 @@ theorem cons_send {p : Par} {s : State} {gab gba : GLink} (h : Cons p s gab gba)
     acon := e (Contig p.base) h.acon
     atag := e (fun k => BufTagged p.conv k.snd_buf) h.atag
     ahas := e (fun k => ∀ x ∈ k.snd_buf, x.acked = true → Has p.base s.B.rcv_nxt s.B.rcv_buf x.sn) h.ahas
-    aub := e (fun k => o p.base k.snd_una ≤ o p.base s.B.rcv_nxt) h.aub
+    arel := e (fun k => ∀ sn, o p.base sn < o p.base k.snd_una → Has p.base s.B.rcv_nxt s.B.rcv_buf sn) h.arel
     bub := e (fun k => o p.base s.B.rcv_nxt ≤ o p.base k.snd_nxt) h.bub
     bbuf := e (fun k => ∀ x ∈ s.B.rcv_buf, o p.base x.sn < o p.base k.snd_nxt) h.bbuf
     fab := e (fun k => ∀ d ∈ gab, ∀ fr ∈ d.2, fr.conv = p.conv ∧ DataLike fr ∧
@@ -275,7 +280,9 @@ theorem cons_flushA {p : Par} {s : State} {gab gba : GLink} (h : Cons p s gab gb
     ahas := fun x' hx' ha => by
       obtain ⟨x, hx, e1, e2⟩ := g5 x' hx' ha
       rw [← e1]; exact h.ahas x hx e2
-    aub := by show o p.base (s.A.flush true (clk s.now)).k.snd_una ≤ _; rw [g4]; exact h.aub
+    arel := by
+      show ∀ sn, o p.base sn < o p.base (s.A.flush true (clk s.now)).k.snd_una → _
+      rw [g4]; exact h.arel
     bK := h.bK, bconv := h.bconv, bsb := h.bsb, bsq := h.bsq
     bub := Nat.le_trans h.bub g3
     bbuf := fun x hx => Nat.lt_of_lt_of_le (h.bbuf x hx) g3
